@@ -57,3 +57,33 @@ package rule
 //@ ensures[C06] forall i int :: 0 <= i && i < 64 ==> le32(result, 780 + 4*i) == r.FieldFlags[i]
 //@ ensures[C06] forall j int :: 0 <= j && j < len(r.Buf) ==> result[1040 + j] == r.Buf[j]
 //@ ensures[C06] forall j int :: 1040 + len(r.Buf) <= j && j < len(result) ==> result[j] == 0
+
+// The in-memory struct: what toAuditRuleData builds from the collected rule.
+// maskWord(s, k, w): word w of the syscall bitmask after the first k syscalls.
+// catLen / catByte: length and bytes of the first k strings put back to back.
+//@ rec maskWord(s []uint32, k int, w int) int :=
+//@   if k <= 0 then 0 else (if s[k-1] / 32 == w then bitor32(maskWord(s, k - 1, w), pow2(s[k-1] % 32)) else maskWord(s, k - 1, w))
+//@ rec catLen(s []string, k int) int :=
+//@   if k <= 0 then 0 else catLen(s, k - 1) + len(s[k-1])
+//@ rec catByte(s []string, k int, p int) int :=
+//@   if k <= 0 then 0 else (if p >= catLen(s, k - 1) then s[k-1][p - catLen(s, k - 1)] else catByte(s, k - 1, p))
+//
+//@ func (rule.ruleData).toAuditRuleData
+//@ requires len(r.fields) == len(r.values) && len(r.fields) == len(r.fieldFlags)
+//@ requires len(r.strings) <= 64 && (forall k int :: 0 <= k && k < len(r.strings) ==> len(r.strings[k]) <= 4096)
+//@ ensures[C06] isNil(result1) ==> result0 != nil && len(r.fields) <= 64
+//@ ensures[C06] isNil(result1) ==> result0.Flags == r.flags && result0.Action == r.action && result0.FieldCount == len(r.fields)
+//@ ensures[C06] isNil(result1) ==> forall i int :: 0 <= i && i < len(r.fields) ==> result0.Fields[i] == r.fields[i] && result0.Values[i] == r.values[i] && result0.FieldFlags[i] == r.fieldFlags[i]
+//@ ensures[C06] isNil(result1) ==> forall i int :: len(r.fields) <= i && i < 64 ==> result0.Fields[i] == 0 && result0.Values[i] == 0 && result0.FieldFlags[i] == 0
+//@ ensures[C06] isNil(result1) && r.allSyscalls ==> (forall w int :: 0 <= w && w < 63 ==> result0.Mask[w] == 4294967295) && result0.Mask[63] == 65535
+//@ ensures[C06] isNil(result1) && !r.allSyscalls ==> forall w int :: 0 <= w && w < 64 ==> result0.Mask[w] == maskWord(r.syscalls, len(r.syscalls), w)
+//@ ensures[C06] isNil(result1) && !r.allSyscalls ==> forall k int :: 0 <= k && k < len(r.syscalls) ==> r.syscalls[k] < 2048
+//@ ensures[C06] isNil(result1) ==> len(result0.Buf) == catLen(r.strings, len(r.strings)) && result0.BufLen == len(result0.Buf)
+//@ ensures[C06] isNil(result1) ==> forall p int :: 0 <= p && p < len(result0.Buf) ==> result0.Buf[p] == catByte(r.strings, len(r.strings), p)
+//@ loop 0 invariant forall w int :: 0 <= w && w <= rangeindex ==> data.Mask[w] == 4294967295
+//@ loop 1 invariant forall w int :: 0 <= w && w < 64 ==> data.Mask[w] == maskWord(r.syscalls, rangeindex + 1, w)
+//@ loop 1 invariant forall k int :: 0 <= k && k <= rangeindex ==> r.syscalls[k] < 2048
+//@ loop 2 invariant forall i int :: 0 <= i && i <= rangeindex ==> data.Fields[i] == r.fields[i] && data.Values[i] == r.values[i] && data.FieldFlags[i] == r.fieldFlags[i]
+//@ loop 2 invariant forall i int :: rangeindex < i && i < 64 ==> data.Fields[i] == 0 && data.Values[i] == 0 && data.FieldFlags[i] == 0
+//@ loop 3 invariant lo(data.Buf) == 0 && len(data.Buf) == catLen(r.strings, rangeindex + 1) && len(data.Buf) <= 4096 * (rangeindex + 1)
+//@ loop 3 invariant forall p int :: 0 <= p && p < len(data.Buf) ==> at(data.Buf, p) == catByte(r.strings, rangeindex + 1, p)
